@@ -61,6 +61,7 @@ type Run struct {
 	assume    []string
 	extra     map[string]interface{}
 	inconcl   []string
+	softInc   []string
 }
 
 // Start parses the common flags. Extra flags must be registered before calling it.
@@ -175,10 +176,23 @@ func (r *Run) Violations() int {
 	return n
 }
 
+// Inconclusive marks the whole run inconclusive (exit 3): a precondition of the oracle failed
+// (contract source not extractable, monitor could not start, a path was never exercised).
 func (r *Run) Inconclusive(why string) {
 	r.mu.Lock()
 	defer r.mu.Unlock()
 	r.inconcl = append(r.inconcl, why)
+}
+
+// InconclusiveCase records that ONE case (script, scenario, child batch) could not be judged -
+// a watchdog fired, a rig did not start. The case is neither held nor violated; it is listed in
+// the evidence. The run as a whole only becomes inconclusive when such cases exceed a tenth of
+// all cases (and more than two): a handful of them on a loaded machine says nothing about the
+// property, but neither may they silently replace real coverage.
+func (r *Run) InconclusiveCase(why string) {
+	r.mu.Lock()
+	defer r.mu.Unlock()
+	r.softInc = append(r.softInc, why)
 }
 
 func (r *Run) Count(key string, n int64) {
@@ -272,6 +286,17 @@ func (r *Run) Finish(evalCounter, nontrivialSet, rule string, need int) {
 	cov["violation_classes"] = vlist
 	if len(r.inconcl) > 0 {
 		cov["inconclusive"] = r.inconcl
+	}
+	if n := len(r.softInc); n > 0 {
+		show := r.softInc
+		if len(show) > 20 {
+			show = show[:20]
+		}
+		cov["inconclusive_cases"] = map[string]interface{}{"count": n, "first": show}
+		if n > 2 && int64(n)*10 > r.counts[evalCounter] {
+			r.inconcl = append(r.inconcl, fmt.Sprintf("%d of %d cases could not be judged (watchdogs / start-up failures): %s", n, r.counts[evalCounter], show[0]))
+			cov["inconclusive"] = r.inconcl
+		}
 	}
 	if int64(len(r.distinct[nontrivialSet])) < int64(need) || r.counts[evalCounter] < 1 {
 		r.inconcl = append(r.inconcl, fmt.Sprintf("only %d distinct non-trivial cases observed (need %d)", len(r.distinct[nontrivialSet]), need))
